@@ -2,11 +2,66 @@ package main
 
 import (
 	"context"
+	"fmt"
+	"strings"
 	"sync"
 	"time"
 
 	"github.com/tsuna/gohbase"
+	"github.com/tsuna/gohbase/hrpc"
 )
+
+// gapScenario runs one request (or one batch) against a region that keeps answering with the
+// given class n times (real sleeps) and reports the gaps between consecutive attempts of the
+// given kind as seen by the simulated servers.
+func gapScenario(kind string, n int, batch bool) string {
+	gohbase.VerifSetSleepOverride(nil)
+	c := newSimCluster()
+	r := c.addRegion(nil, []byte("t"), nil, nil, "rs1:1")
+	sc := newSimClient(c)
+	defer sc.cl.Close()
+	g0, _ := hrpc.NewGet(context.Background(), []byte("t"), []byte("warm"))
+	sc.cl.Get(g0) // establish the region first
+	c.mu.Lock()
+	for i := 0; i < n; i++ {
+		r.faults = append(r.faults, kind)
+	}
+	m0 := len(c.serves)
+	c.mu.Unlock()
+	var times []time.Time
+	ctx, cancel := context.WithTimeout(context.Background(), 20*time.Second)
+	defer cancel()
+	t0 := time.Now()
+	res := "ok"
+	if batch {
+		g1, _ := hrpc.NewGet(ctx, []byte("t"), []byte("k1"))
+		_, ok := sc.cl.SendBatch(ctx, []hrpc.Call{g1})
+		if !ok {
+			res = "failed"
+		}
+	} else {
+		g1, _ := hrpc.NewGet(ctx, []byte("t"), []byte("k1"))
+		if _, err := sc.cl.Get(g1); err != nil {
+			res = classOf(err)
+		}
+	}
+	_ = t0
+	_ = times
+	c.mu.Lock()
+	var atts []string
+	for _, s := range c.serves[m0:] {
+		if s.kind == "meta" {
+			continue
+		}
+		atts = append(atts, fmt.Sprintf("%s.%s.%d", s.kind, s.outcome, s.at.Sub(t0).Microseconds()))
+	}
+	c.mu.Unlock()
+	api := "rpc"
+	if batch {
+		api = "batch"
+	}
+	return fmt.Sprintf("c17 gaps %s %s %d %s %s", api, strings.Replace(kind, "REQ:", "req-", 1), n, res, strings.Join(atts, ";"))
+}
 
 func init() { props["C17"] = runC17 }
 
@@ -93,5 +148,29 @@ func runC17(tier string, seed uint64, out *Out) {
 	}
 	for _, r := range append(cres, dres...) {
 		out.Line("c17 cancel %d %d %s %d", int64(r.b), int64(r.next), errStr(r.err), int64(r.elapsed))
+	}
+	// whole retry loops against the simulated cluster, real time
+	n := 5
+	if tier != "quick" {
+		n = 8
+	}
+	type job struct {
+		kind  string
+		batch bool
+	}
+	jobs := []job{{"retryable", false}, {"connErr", false}, {"nsre", false}, {"retryable", true}, {"connErr", true}, {"nsre", true},
+		{"REQ:connErr", false}, {"REQ:connErr", true}, {"REQ:nsre", true}}
+	lines := make([]string, len(jobs))
+	var wg2 sync.WaitGroup
+	for i, j := range jobs {
+		wg2.Add(1)
+		go func(i int, j job) {
+			defer wg2.Done()
+			lines[i] = gapScenario(j.kind, n, j.batch)
+		}(i, j)
+	}
+	wg2.Wait()
+	for _, l := range lines {
+		out.Line("%s", l)
 	}
 }
